@@ -173,7 +173,9 @@ class ProjectRegistry:
         for path in sorted(self._directory.rglob("*")):
             if self.is_item(path) is True:
                 rel_parent_path = path.parent.relative_to(self._directory)
-                item_key = (rel_parent_path / path.stem).as_posix()
+                # Folder names (results) have no suffix, dots are part of the name.
+                item_stem = path.name if path.is_dir() else path.stem
+                item_key = (rel_parent_path / item_stem).as_posix()
                 if item_key not in items:
                     items[item_key] = path
                 else:
